@@ -54,14 +54,16 @@ Case(ks, bf, bt, sz, idx) ==
    rows |-> idx,                                 \* row r of the result is source row idx[r], all fields
    newbeta |-> bt]
 
-Cases ==
-  UNION { UNION { UNION { UNION {
-     { Case(ks, bf, bt, sz, idx) : idx \in Pick(AllIdx(ks, sz)) }
-       : sz \in Sizes(Len(ks)) }
-       \* a dead row makes the incremental weight 0 * (-inf) undefined when the temperature does not move
-       : bt \in {b \in Betas : (b > bf /\ b - bf <= MaxMove) \/ (b = bf /\ Live(ks) = 1..Len(ks))} }
-       : bf \in Betas }
-       : ks \in {q \in UNION {[1..n -> Ks] : n \in NMin..NMax} : Live(q) # {}} }
+\* The case space is the set of initial states (an existential Init lets TLC enumerate it directly;
+\* the states are dumped and replayed on the real code).
+InitCases ==
+  \E ks \in {q \in UNION {[1..n -> Ks] : n \in NMin..NMax} : Live(q) # {}} :
+  \E bf \in Betas :
+  \* a dead row makes the incremental weight 0 * (-inf) undefined when the temperature does not move
+  \E bt \in {b \in Betas : (b > bf /\ b - bf <= MaxMove) \/ (b = bf /\ Live(ks) = 1..Len(ks))} :
+  \E sz \in Sizes(Len(ks)) :
+  \E idx \in Pick(AllIdx(ks, sz)) :
+     cur = Case(ks, bf, bt, sz, idx)
 
 (* laws of the reference itself *)
 ProbsSumToOne == \A c \in {cur} : SumSeq(c.wnum) = c.wden
@@ -72,11 +74,9 @@ Monotone == \A c \in {cur} : \A i, j \in 1..Len(c.ks) :
                (c.bt > c.bf /\ c.ks[i] # Dead /\ c.ks[j] # Dead /\ c.ks[i] >= c.ks[j]) => c.wnum[i] >= c.wnum[j]
 SameBetaUniform == \A c \in {cur} : c.bt = c.bf => \A i \in 1..Len(c.wnum) : c.wnum[i] = 1
 
-ASSUME PrintT(<<"NCASES", Cardinality(Cases)>>)
-ASSUME JsonSerialize(IOEnv.OUT_FILE, SetToSeq(Cases))
 
 \* one TLC state per case: the laws are state invariants evaluated on every case
-Init == cur \in Cases
+Init == InitCases
 Next == UNCHANGED cur
 Spec == Init /\ [][Next]_cur
 =============================================================================
